@@ -2,9 +2,11 @@ SPECIFICATION GSpec
 CONSTANTS
   Servers = {"s1", "s2"}
   NWorkers = 2
+  Q = 2
+  StartFirst = FALSE
   KeyIds = {"k1", "k2"}
   DirectOutcomes = {"ok", "err", "bad"}
   NotaryOutcomes = {"ok", "err", "missing", "bad"}
   HasLocal = TRUE
-INVARIANTS TypeOK ExactUnion EachServerOnce NothingEarly Emit
+INVARIANTS TypeOK ExactUnion EachServerOnce NothingEarly QueueBound Emit
 CHECK_DEADLOCK FALSE
